@@ -7,6 +7,9 @@ from . import lib, h1common
 
 
 def rerun(ctx, case_lines):
+    if "xs" in json.loads(case_lines[0]):      # a case of the client part (driver c11)
+        import importlib
+        return importlib.import_module("checks.c11").rerun(ctx, case_lines)
     return h1common.rerun_h1srv(ctx, case_lines)
 
 
